@@ -3,7 +3,10 @@
 # (own harness copy, own cargo target, own coq copy, own evidence/replay dirs), then remove everything.
 #   tools/mutant.sh <patch.diff> Cxx [quick|thorough]
 # Exit status = status of the check (1 = VIOLATION reported, i.e. the mutant is caught).
+# VERIF_ROOT (default /verif): which copy of the machinery to use (e.g. a git worktree of /verif at a commit, while
+# files of the live tree are being edited).
 set -u
+V=${VERIF_ROOT:-/verif}
 PATCH=$(readlink -f "$1"); PID=$2; TIER=${3:-quick}
 S=/tmp/vm-$$-$PID
 cleanup() { git -C /repo worktree remove --force "$S/repo" >/dev/null 2>&1; rm -rf "$S"; git -C /repo worktree prune; }
@@ -11,14 +14,15 @@ trap cleanup EXIT INT TERM
 mkdir -p "$S" || exit 2
 git -C /repo worktree add --detach "$S/repo" HEAD >/dev/null 2>&1 || exit 2
 ( cd "$S/repo" && git apply "$PATCH" ) || { echo "patch does not apply"; exit 2; }
-cp -r /verif/harness "$S/harness"; rm -rf "$S/harness/target"
+cp -r "$V/harness" "$S/harness"; rm -rf "$S/harness/target"
 sed -i "s#/repo/#$S/repo/#g" "$S/harness/Cargo.toml"
 cp /repo/Cargo.lock "$S/harness/Cargo.lock"; cp /repo/Cargo.lock "$S/repo/Cargo.lock" 2>/dev/null
-cp -r /verif/coq "$S/coq"
+cp -r "$V/coq" "$S/coq"
+[ -f "$S/coq/Makefile" ] || ( cd "$S/coq" && coq_makefile -f _CoqProject -o Makefile >/dev/null 2>&1 )
 mkdir -p "$S/build" "$S/evidence" "$S/replay"
 # reuse the warmed dependency build where possible: copy is too big, so build cold (about 1 min)
 VERIF_REPO="$S/repo" VERIF_HARNESS="$S/harness" VERIF_BUILD="$S/build" VERIF_COQ="$S/coq" \
-VERIF_EVIDENCE="$S/evidence" VERIF_REPLAY="$S/replay" python3 /verif/tools/verif.py "$PID" "$TIER"
+VERIF_EVIDENCE="$S/evidence" VERIF_REPLAY="$S/replay" python3 "$V/tools/verif.py" "$PID" "$TIER"
 RC=$?
 if [ -n "${MUTANT_KEEP:-}" ]; then mkdir -p "$MUTANT_KEEP"; cp -r "$S/replay" "$S/evidence" "$MUTANT_KEEP"/ 2>/dev/null; fi
 exit $RC
